@@ -100,6 +100,10 @@ type Unit struct {
 	nlocal      int
 	nepoch      int
 	epochJoin   map[int][]epochArm
+	rec         map[string]bool // when non-nil: heap names read (footprint computation)
+	axHeaps     map[string]Term // when non-nil: axiom mode, heap name -> bound variable
+	reveals     map[string]bool
+	revealed    map[string]bool // definitional axioms already emitted (function|heap tuple)
 	inQuant     int
 	lockDefault bool // lock heaps start all-free (function entered with no modelled lock held)
 	declared    map[string]bool
@@ -176,6 +180,21 @@ func (un *Unit) heapAt(name string, s Sort, ep int) Term {
 
 // H reads heap `name` in state st (value of the state's epoch if never written on this path).
 func (un *Unit) H(st *State, name string, s Sort) Term {
+	if un.rec != nil {
+		un.rec[name] = true
+	}
+	if un.axHeaps != nil {
+		// axiom mode: heaps are universally quantified
+		if _, ok := un.heapSort[name]; !ok {
+			un.heapSort[name] = s
+		}
+		if t, ok := un.axHeaps[name]; ok {
+			return t
+		}
+		t := Term{"H!ax_" + sanitize(name), s}
+		un.axHeaps[name] = t
+		return t
+	}
 	if t, ok := st.H[name]; ok {
 		return t
 	}
@@ -666,4 +685,26 @@ func (un *Unit) iteChain(sts []State, vals []Term) Term {
 		res = Ite(sts[i].R, vals[i], res)
 	}
 	return res
+}
+
+// havocFresh: heap `name` changes only at references allocated after this point.
+func (un *Unit) havocFresh(st *State, name string) {
+	s, ok := un.heapSort[name]
+	if !ok {
+		s, ok = un.eng.heapSortHint[name]
+		if !ok {
+			return
+		}
+	}
+	if !strings.HasPrefix(string(s), "(Array Int ") {
+		return
+	}
+	old := un.H(st, name, s)
+	// the counter as it is now bounds what existed (callers bump it before calling)
+	lim := un.H(st, "$limit", SInt)
+	nh := un.fresh(name+"_new", s)
+	un.heapTyping(name, nh, un.H(st, "$next", SInt))
+	r := Term{"r!nw", SInt}
+	un.assume(st, Forall([]Term{r}, Implies(Le(r, lim), Eq(Select(nh, r), Select(old, r))), Select(nh, r)))
+	st.H[name] = nh
 }
